@@ -2,7 +2,7 @@
    Only statements here; proofs live in Proofs/C19_*.v. *)
 From Coq Require Import ZArith List Lia Bool.
 From PR Require Import Base.ZX Base.Slice Model.Partition Gen.GenSubset
-     Proofs.C19_partition Proofs.C19_raa Proofs.C19_divisible.
+     Model.Unions Proofs.C19_partition Proofs.C19_raa Proofs.C19_divisible Proofs.C19_unions_spec Proofs.C19_unions.
 Import ListNotations.
 Open Scope Z_scope.
 
@@ -23,22 +23,15 @@ Proof. intros c H. exact (offsets_wtiles c 0%nat 0 H). Qed.
 Print Assumptions C19_chunk_axis_tiles.
 Theorem C19_chunk_slices_product : forall chunks blk,
   In blk (enumerate_chunk_slices chunks) <-> Forall2 (fun a c => In a (offsets 0 0 c)) blk chunks.
-Proof.
-  intros chunks blk. unfold enumerate_chunk_slices. rewrite in_product.
-  split; intros H.
-  - remember (map (offsets 0 0) chunks) as ls eqn:E. revert chunks E.
-    induction H as [|a l x ls Ha Hr IH]; intros [|c chunks] E; try discriminate; constructor;
-      inversion E; subst; auto.
-  - induction H as [|a c x cs Ha Hr IH]; constructor; auto.
-Qed.
+Proof. exact chunk_slices_product. Qed.
 Print Assumptions C19_chunk_slices_product.
 Theorem C19_chunk_slices_count : forall chunks,
   length (enumerate_chunk_slices chunks) = fold_right (fun c n => (length c * n)%nat) 1%nat chunks.
-Proof.
-  intros chunks. unfold enumerate_chunk_slices. rewrite length_product.
-  induction chunks as [|c r IH]; cbn; [reflexivity|]. rewrite IH. f_equal.
-  clear. generalize 0%nat, 0. induction c as [|x c IHc]; cbn; intros; [reflexivity|]. f_equal. apply IHc.
-Qed.
+Proof. exact chunk_slices_count. Qed.
+(* no block is listed twice (positions along each axis are distinct) *)
+Theorem C19_chunk_slices_nodup : forall chunks, NoDup (enumerate_chunk_slices chunks).
+Proof. exact chunk_slices_nodup. Qed.
+Print Assumptions C19_chunk_slices_nodup.
 Print Assumptions C19_chunk_slices_count.
 Example C19_chunks_ex : enumerate_chunk_slices [[2; 1]; [3]] =
   [[(0%nat, mk_slice 0 2); (0%nat, mk_slice 0 3)]; [(1%nat, mk_slice 2 3); (0%nat, mk_slice 0 3)]].
@@ -62,3 +55,33 @@ Proof. exact make_divisible_spec. Qed.
 Print Assumptions C19_make_divisible_spec.
 Example C19_divisible_ex : gen_make_slice_divisible (mk_slice 1 3) 4 4 = mk_slice 0 4.
 Proof. reflexivity. Qed.
+
+(* overlap merging: for every family of geometries whose overlap relation is symmetric and distributes
+   over union (true of sets; the named hypothesis for spherical polygons), the result has every input in
+   exactly one union, unions pairwise non-overlapping, and two inputs share a union iff they are connected
+   in the overlap graph: the unions are exactly the connected components *)
+Theorem C19_merge_is_components : forall (G : Type) (overlaps : G -> G -> bool) (union : G -> G -> G) (gs : list G),
+  geom_ok overlaps union ->
+  merge_correct overlaps gs (merge_loop overlaps union (length gs) (init_entries gs)).
+Proof. exact @merge_is_components. Qed.
+Print Assumptions C19_merge_is_components.
+
+(* ... independent of the order in which the inputs are given *)
+Theorem C19_merge_order_independent : forall (G : Type) (overlaps : G -> G -> bool) (union : G -> G -> G)
+    (gs gs' : list G) (sigma : nat -> nat),
+  length gs' = length gs ->
+  (forall i, (i < length gs)%nat -> nth_error gs' i = nth_error gs (sigma i)) ->
+  (forall i, (i < length gs)%nat -> (sigma i < length gs)%nat) ->
+  (forall i j, (i < length gs)%nat -> (j < length gs)%nat -> sigma i = sigma j -> i = j) ->
+  (forall k, (k < length gs)%nat -> exists i, (i < length gs)%nat /\ sigma i = k) ->
+  geom_ok overlaps union ->
+  forall i j, (i < length gs)%nat -> (j < length gs)%nat ->
+    same_union (merge_loop overlaps union (length gs') (init_entries gs')) i j <->
+    same_union (merge_loop overlaps union (length gs) (init_entries gs)) (sigma i) (sigma j).
+Proof. exact @merge_order_independent. Qed.
+Print Assumptions C19_merge_order_independent.
+(* the hypothesis is satisfiable: finite sets as lists *)
+Example C19_geom_ok_sets : geom_ok lov lun.
+Proof. exact geom_ok_lists. Qed.
+Example C19_merge_ex : merge lov lun [[1;2];[3];[2;3];[7]]%nat = [([3], [7]); ([1;0;2], [3;1;2;2;3])]%nat.
+Proof. vm_compute. reflexivity. Qed.
